@@ -8,6 +8,7 @@ import XsdataModel.Proofs.SortL
 import XsdataModel.Proofs.QNameL
 import XsdataModel.Proofs.EnumL
 import XsdataModel.Proofs.DecimalL
+import XsdataModel.Proofs.FloatL
 
 namespace Props.C05
 open Py Xs.Conv Xs.Spec
@@ -223,6 +224,74 @@ theorem decimal_inf_rt (e : Env) (neg : Bool) :
     rw [if_pos (by decide)]
     decide
 
+/-! ## xs:double / xs:float
+
+`float(str)` is modelled as a grammar yielding the exact decimal written in the
+string; CPython's rounding to binary64 and `repr` are outside the model. The
+theorems say: (1) every xs:double form is accepted with the decimal value XSD
+assigns; (2) the converter's post-processing of `repr(x)` (`upper()`,
+`replace("E+", "E")`, `INF`/`NaN`) yields an xs:double form denoting the *same*
+decimal as `repr(x)` itself. With CPython's guarantee `float(repr(x)) == x` this
+is the round trip. -/
+
+/-- every xs:double / xs:float lexical form (`1`, `1.`, `.5`, `1e5`, `1.5E-7`,
+`+INF`, `NaN`, …), with XSD white space around it, is read as the value it denotes -/
+theorem float_accepts (e : Env) (pre post s : Str) (lit : FloatLit)
+    (hpre : AllXsdSpace pre) (hpost : AllXsdSpace post) (h : XsdDouble s lit) :
+    pyFloatLit e (pre ++ s ++ post) = some lit := by
+  rcases h with h | h
+  · exact pyFloatLit_num e pre post s lit hpre hpost h
+  · exact pyFloatLit_special e pre post s lit hpre hpost h
+
+/-- **canonical spelling**: for a finite float, `FloatConverter.serialize` turns
+`repr(x)` into an xs:double lexical form (upper-case `E`, no `+` in the exponent)
+that denotes exactly the decimal `repr(x)` denotes -/
+theorem float_ser_valid (r : Str) (lit : FloatLit) (h : PyReprFinite r lit) :
+    XsdDouble (floatSerialize ⟨r⟩) lit := by
+  obtain ⟨neg, ip, fp, ex, rfl, hipne, hip, hfp, hex, rfl⟩ := h
+  rw [floatSerialize_finite neg ip fp ex hipne hip hfp hex, reprMant_eq, List.append_assoc]
+  left
+  refine ⟨if neg then .minus else .none, ip, fp, decide (fp ≠ []), serExp ex, rfl, hip, hfp,
+    Or.inl hipne, ?_, serExp_ok ex hex, ?_⟩
+  · intro hd; simpa using hd
+  · rw [sign_neg_eq, serExp_val]
+
+/-- `repr(x)` itself is an xs:double form of that decimal -/
+theorem pyrepr_is_xsd (r : Str) (lit : FloatLit) (h : PyReprFinite r lit) : XsdDouble r lit := by
+  obtain ⟨neg, ip, fp, ex, rfl, hipne, hip, hfp, hex, rfl⟩ := h
+  rw [reprMant_eq, List.append_assoc, ← reprExpX_str]
+  left
+  refine ⟨if neg then .minus else .none, ip, fp, decide (fp ≠ []), reprExpX ex, rfl, hip, hfp,
+    Or.inl hipne, ?_, reprExpX_ok ex hex, ?_⟩
+  · intro hd; simpa using hd
+  · rw [sign_neg_eq, reprExpX_val]
+
+/-- **float round trip (value level)**: reading the serialised form gives the
+same literal as reading `repr(x)`: the post-processing loses nothing -/
+theorem float_rt (e : Env) (r : Str) (lit : FloatLit) (h : PyReprFinite r lit) :
+    pyFloatLit e (floatSerialize ⟨r⟩) = some lit ∧ pyFloatLit e r = some lit := by
+  have h1 := float_accepts e [] [] _ lit (by intro c h; cases h) (by intro c h; cases h) (float_ser_valid r lit h)
+  have h2 := float_accepts e [] [] _ lit (by intro c h; cases h) (by intro c h; cases h) (pyrepr_is_xsd r lit h)
+  simp only [List.nil_append, List.append_nil] at h1 h2
+  exact ⟨h1, h2⟩
+
+example : PyReprFinite ['1', 'e', '+', '2', '2'] (.fin false 1 22) :=
+  ⟨false, ['1'], [], some (false, ['2', '2']), rfl, (by simp), (by unfold AllDigits; decide),
+    (by intro c h; cases h), ⟨by simp, by unfold AllDigits; decide⟩, (by decide)⟩
+
+/-- the special values: `nan` → `NaN`, `inf` → `INF`, `-inf` → `-INF`, all
+xs:double forms that are read back as the same special value -/
+theorem float_special_rt (e : Env) :
+    floatSerialize ⟨['n', 'a', 'n']⟩ = ['N', 'a', 'N'] ∧ pyFloatLit e ['N', 'a', 'N'] = some .nan ∧
+    floatSerialize ⟨['i', 'n', 'f']⟩ = ['I', 'N', 'F'] ∧ pyFloatLit e ['I', 'N', 'F'] = some (.inf false) ∧
+    floatSerialize ⟨['-', 'i', 'n', 'f']⟩ = ['-', 'I', 'N', 'F'] ∧
+    pyFloatLit e ['-', 'I', 'N', 'F'] = some (.inf true) := by
+  have sp : ∀ s lit, (s, lit) ∈ xsdDoubleSpecial → pyFloatLit e s = some lit := by
+    intro s lit h
+    have := pyFloatLit_special e [] [] s lit (by intro c h; cases h) (by intro c h; cases h) h
+    simpa using this
+  exact ⟨by decide, sp _ _ (by decide), by decide, sp _ _ (by decide), by decide, sp _ _ (by decide)⟩
+
 /-! ## candidate lists: `sort_types` and the priority order -/
 
 /-- `sort_types` returns a permutation of its input -/
@@ -339,6 +408,62 @@ theorem int_datatype_narrowest (v : Int) :
   simp only [intDatatype, Tables.intDatatypeBounds, Tables.intDatatypeCodes, nthCode, List.getD_cons_zero,
     List.getD_cons_succ, Bool.and_eq_true, decide_eq_true_eq]
   rfl
+
+/-- `float_datatype`: `xs:float` is only inferred for values within
+`-1.175494351e-38 ≤ v ≤ 3.402823466e38` (constants compared with the code's) -/
+theorem float_datatype_sound (l : FloatLit) (h : floatDatatype l = ['f', 'l', 'o', 'a', 't']) :
+    ∃ n c x, l = .fin n c x ∧ finLe true 1175494351 (-47) n c x = true ∧
+      finLe n c x false 3402823466 29 = true := by
+  cases l with
+  | fin n c x =>
+    refine ⟨n, c, x, rfl, ?_⟩
+    simp only [floatDatatype, Tables.floatDatatypeLo, Tables.floatDatatypeHi, Tables.floatDatatypeCodes,
+      nthCode] at h
+    by_cases hc : (finLe true 1175494351 (-47) n c x && finLe n c x false 3402823466 29) = true
+    · simpa using hc
+    · simp [hc] at h
+  | inf n => simp [floatDatatype, Tables.floatDatatypeCodes, nthCode] at h
+  | nan => simp [floatDatatype, Tables.floatDatatypeCodes, nthCode] at h
+
+/-- `DataType.from_value` for the other primitive values (table regenerated from
+`__DataTypeIndex__`): note that plain `bytes` has no datatype of its own -/
+theorem from_value_table (e : Env) :
+    (∀ b, fromValue e (.bool b) = ['b','o','o','l','e','a','n']) ∧
+    (∀ s, fromValue e (.str s) = ['s','t','r','i','n','g']) ∧
+    (∀ d, fromValue e (.dec d) = ['d','e','c','i','m','a','l']) ∧
+    (∀ t, fromValue e (.qname t) = ['Q','N','a','m','e']) ∧
+    (∀ bs, fromValue e (.bytes .hex bs) = ['h','e','x','B','i','n','a','r','y']) ∧
+    (∀ bs, fromValue e (.bytes .b64 bs) = ['b','a','s','e','6','4','B','i','n','a','r','y']) ∧
+    (∀ bs, fromValue e (.bytes .plain bs) = ['s','t','r','i','n','g']) ∧
+    (∀ i, fromValue e (.int i) = intDatatype i) := by
+  have hinf : Tables.dataTypeInferIndex.contains ['i', 'n', 't'] = true := by decide
+  refine ⟨?_, ?_, ?_, ?_, ?_, ?_, ?_, ?_⟩
+  · intro x; show ((Tables.dataTypeIndex.find? (·.1 = ['b','o','o','l'])).map (·.2)).getD Tables.defaultDatatypeCode = _; decide
+  · intro x; show ((Tables.dataTypeIndex.find? (·.1 = ['s','t','r'])).map (·.2)).getD Tables.defaultDatatypeCode = _; decide
+  · intro x; show ((Tables.dataTypeIndex.find? (·.1 = ['D','e','c','i','m','a','l'])).map (·.2)).getD Tables.defaultDatatypeCode = _; decide
+  · intro x; show ((Tables.dataTypeIndex.find? (·.1 = ['Q','N','a','m','e'])).map (·.2)).getD Tables.defaultDatatypeCode = _; decide
+  · intro x
+    show ((Tables.dataTypeIndex.find? (·.1 = ['X','m','l','H','e','x','B','i','n','a','r','y'])).map
+      (·.2)).getD Tables.defaultDatatypeCode = _
+    decide
+  · intro x
+    show ((Tables.dataTypeIndex.find?
+      (·.1 = ['X','m','l','B','a','s','e','6','4','B','i','n','a','r','y'])).map (·.2)).getD
+        Tables.defaultDatatypeCode = _
+    decide
+  · intro x; show ((Tables.dataTypeIndex.find? (·.1 = ['b','y','t','e','s'])).map (·.2)).getD Tables.defaultDatatypeCode = _; decide
+  · intro x
+    simp only [fromValue, Atom.typeName, hinf, if_true]
+
+/-- the format names of the binary encodings, as documented -/
+theorem format_names :
+    Tables.fmtBase16 = ['b','a','s','e','1','6'] ∧ Tables.fmtBase64 = ['b','a','s','e','6','4'] := by decide
+
+/-- every namespace of the `Namespace` enum without a hyphen passes `is_uri`
+(the others are finding C05-uri-hyphen) -/
+theorem standard_namespaces_are_uris :
+    Tables.standardNamespaces.all (fun x => isUri (some x.1) || x.1.contains '-') = true := by
+  decide +kernel
 
 /-! ## `test(strict=True)` -/
 
